@@ -53,3 +53,43 @@ def rt_unregister(m):
 
 def rt_subscribe(m):
     return M.Subscribe.parse(m.marshal())
+
+
+def rt_register(m):
+    return M.Register.parse(m.marshal())
+
+
+def rt_challenge(m):
+    return M.Challenge.parse(m.marshal())
+
+
+def rt_authenticate(m):
+    return M.Authenticate.parse(m.marshal())
+
+
+def rt_yield(m):
+    return M.Yield.parse(m.marshal())
+
+
+def rt_result(m):
+    return M.Result.parse(m.marshal())
+
+
+def rt_error(m):
+    return M.Error.parse(m.marshal())
+
+
+def rt_call(m):
+    return M.Call.parse(m.marshal())
+
+
+def rt_invocation(m):
+    return M.Invocation.parse(m.marshal())
+
+
+def rt_event(m):
+    return M.Event.parse(m.marshal())
+
+
+def rt_publish(m):
+    return M.Publish.parse(m.marshal())
